@@ -58,11 +58,11 @@ theorem Connect.abs_flags (p : Connect) (hi : p.FlagsInv) (hn : p.will = none ‚Ü
     simpa [Connect.absWill, Connect.willQoS_eq] using this hi.reserved h4
 
 theorem Connect.props_eq (p : Connect) (h : UpsInRange p.userProps) : p.props = propBytes p.occs := by
-  rw [(Tie.T2_connect p).1, encFields_eq, encUserProps_eq _ (ups_keys _ h), ‚Üê propBytes_append]; rfl
+  rw [(Tie.M2_connect p), encFields_eq, encUserProps_eq _ (ups_keys _ h), ‚Üê propBytes_append]; rfl
 
 theorem Connect.willProps_eq (p : Connect) (w : Publish) (h : UpsInRange w.userProps) :
     p.willProps w = propBytes (p.willOccs w) := by
-  rw [(Tie.T2_will p w).1, encFields_eq, encUserProps_eq _ (ups_keys _ h), ‚Üê propBytes_append]; rfl
+  rw [(Tie.M2_will p w), encFields_eq, encUserProps_eq _ (ups_keys _ h), ‚Üê propBytes_append]; rfl
 
 theorem Connect.occs_legal (p : Connect) (r1 : strOK p.authMethod) (r2 : strOK p.authData) (hu : UpsInRange p.userProps) :
     propsLegal 1 p.occs = true := by
